@@ -6,6 +6,8 @@ import (
 	"go/types"
 	"math"
 	"os"
+	"sort"
+	"strconv"
 	"strings"
 
 	"golang.org/x/tools/go/ssa"
@@ -759,7 +761,16 @@ func (f *frame) execBlock(b *ssa.BasicBlock, st *State) (term ssa.Instruction, o
 			ln.IsLen = o
 			st.env[x] = &Slice{Obj: o, Path: "", Off: NewConstInt(64, true, 0), Len: ln, Elem: t.Elem()}
 		case *ssa.MakeMap:
-			o := it.ObjectFor(x, x.Type(), siteName(x), ModeOpaque)
+			// a map whose type is never updated by run-phase code is a lookup table: its entries
+			// are kept per constant key; other maps are opaque
+			mode := ModeOpaque
+			if it.PreciseMap != nil && it.PreciseMap(x.Type()) {
+				mode = ModeZero
+			}
+			o := it.ObjectFor(x, x.Type(), siteName(x), mode)
+			if mode == ModeZero {
+				st.ResetObject(o, ModeZero)
+			}
 			st.env[x] = &Ptr{Obj: o, Path: "", Elem: x.Type()}
 		case *ssa.MakeChan:
 			o := it.ObjectFor(x, x.Type(), siteName(x), ModeOpaque)
@@ -816,11 +827,13 @@ func (f *frame) execBlock(b *ssa.BasicBlock, st *State) (term ssa.Instruction, o
 			if sv, ok := xv.(*Str); ok {
 				_ = sv
 				st.env[x] = NewTopInt(8, false, Union(DepsOf(xv), DepsOf(idx)))
+			} else if v, ok := f.mapLookup(st, x, xv, idx); ok {
+				st.env[x] = v
 			} else {
 				st.env[x] = it.topOf(x.Type(), Union(DepsOf(xv), DepsOf(idx)))
 			}
 		case *ssa.MapUpdate:
-			// maps are opaque
+			f.mapUpdate(st, x)
 		case *ssa.Range:
 			st.env[x] = &Top{T: x.Type(), D: DepsOf(f.operand(st, x.X))}
 		case *ssa.Next:
@@ -1571,4 +1584,110 @@ func headerPhis(h *ssa.BasicBlock) []ssa.Value {
 		}
 	}
 	return out
+}
+
+// ---------------------------------------------------------------------------
+// maps used as lookup tables
+
+// mapKeyPath renders a constant key as a cell path component.
+func mapKeyPath(k Value) (string, bool) {
+	switch x := k.(type) {
+	case *Int:
+		if c, ok := x.Const(); ok && x.allBitsConst() {
+			return "{" + strconv.FormatInt(c, 10) + "}", true
+		}
+	case *Str:
+		if x.Known {
+			return "{" + strconv.Quote(x.S) + "}", true
+		}
+	case *Bool:
+		if c, ok := x.Const(); ok {
+			return "{" + strconv.FormatBool(c) + "}", true
+		}
+	}
+	return "", false
+}
+
+func (f *frame) preciseMapObj(st *State, v Value) (*Object, *types.Map) {
+	p, ok := v.(*Ptr)
+	if !ok || p.Path != "" {
+		return nil, nil
+	}
+	mt, ok := p.Obj.T.Underlying().(*types.Map)
+	if !ok || st.ModeOf(p.Obj) != ModeZero {
+		return nil, nil
+	}
+	if _, bad := st.RawCells(p.Obj)["#imprecise"]; bad {
+		return nil, nil
+	}
+	return p.Obj, mt
+}
+
+func (f *frame) mapUpdate(st *State, x *ssa.MapUpdate) {
+	it := f.it
+	o, mt := f.preciseMapObj(st, f.operand(st, x.Map))
+	if o == nil {
+		return
+	}
+	kp, ok := mapKeyPath(f.operand(st, x.Key))
+	if !ok {
+		st.SetCell(o, "#imprecise", NewConstBool(true))
+		return
+	}
+	p := &Ptr{Obj: o, Path: kp, Elem: mt.Elem()}
+	v := f.operand(st, x.Value)
+	keys, strong := st.StorePtr(p, v)
+	if it.Hooks.Store != nil {
+		it.Hooks.Store(st, x, p, keys, v, strong)
+	}
+}
+
+func (f *frame) mapLookup(st *State, x *ssa.Lookup, mv, key Value) (Value, bool) {
+	it := f.it
+	o, mt := f.preciseMapObj(st, mv)
+	if o == nil {
+		return nil, false
+	}
+	present := map[string]bool{}
+	for path := range st.RawCells(o) {
+		if strings.HasPrefix(path, "{") {
+			if end := strings.IndexByte(path, '}'); end > 0 {
+				present[path[:end+1]] = true
+			}
+		}
+	}
+	load := func(kp string) Value {
+		p := &Ptr{Obj: o, Path: kp, Elem: mt.Elem()}
+		v := st.LoadPtr(p)
+		if it.Hooks.Load != nil {
+			it.Hooks.Load(st, x, p, v)
+		}
+		return v
+	}
+	var val Value
+	var okv *Bool
+	if kp, isc := mapKeyPath(key); isc {
+		if present[kp] {
+			val, okv = load(kp), NewConstBool(true)
+		} else {
+			val, okv = it.zeroValue(mt.Elem()), NewConstBool(false)
+		}
+	} else {
+		// unknown key: any entry, or the zero value
+		val = it.zeroValue(mt.Elem())
+		var ks []string
+		for k := range present {
+			ks = append(ks, k)
+		}
+		sort.Strings(ks)
+		for _, k := range ks {
+			val = it.Join(val, load(k), nil, nil)
+		}
+		val = WithDeps(val, Union(DepsOf(val), DepsOf(key)))
+		okv = &Bool{B: bitTop, D: DepsOf(key), VID: nextVID()}
+	}
+	if x.CommaOk {
+		return &Tuple{Vs: []Value{val, okv}}, true
+	}
+	return val, true
 }
